@@ -95,9 +95,12 @@ def oracle_hostile(ctx, ops, impl):
                 lk = [x for x in q if x.startswith("L[t]=")]
                 nd = [x for x in q if x.startswith("N=")]
                 le = [x for x in q if x.startswith("L[e#ephemeral]=")]
-                okb = (lk and re.search(r"pr=(.*,)?%s:hA:" % by, lk[0]) and "ch=c" in lk[0]
-                       and nd and re.search(r"(=|,)%s:hA:" % by, nd[0])
-                       and le and re.search(r"pr=(.*,)?%s:hA:" % by, le[0]) and "d#ephemeral" in le[0])
+                def listed(part, chan):
+                    m = re.match(r"L\[[^\]]*\]=ch=([^;]*);pr=(.*)$", part)
+                    return bool(m) and chan in m.group(1).split(",") and \
+                        any(x.startswith(by + ":hA:") for x in m.group(2).split(","))
+                okb = (lk and listed(lk[0], "c") and le and listed(le[0], "d#ephemeral")
+                       and nd and any(x.startswith(by + ":hA:") for x in nd[0][2:].split("},")))
                 if not okb:
                     ctx.violation("bystander-lost:" + hashlib.sha1(w[3].encode()).hexdigest()[:10],
                                   "after a hostile connection the well-behaved producer %s is no longer listed "
@@ -171,7 +174,7 @@ def run(ctx):
             broken += run_replay(ctx, binp, f, "corpus:" + os.path.basename(f))
         # 2. hostile streams
         nsh = ctx.budget(4, 12)
-        jobs = [(binp, "TestVerifE4Hostile", {"VERIF_N": ctx.budget(600, 4000), "VERIF_SHARD": s}, 1500) for s in range(nsh)]
+        jobs = [(binp, "TestVerifE4Hostile", {"VERIF_N": ctx.budget(600, 12000), "VERIF_SHARD": s}, 1500) for s in range(nsh)]
         res = e4.run_parallel(ctx, jobs, workers=nsh)
         for s, (rc, out) in enumerate(res):
             ops = e4.read_lines(os.path.join(ctx.work, "hostile_%d.ops" % s))
